@@ -16,7 +16,7 @@ StartLine == CHOOSE i \in 1..TraceLen : TraceLog[i].ev = "run.start"
 NW == TraceLog[StartLine].workers
 
 VARIABLES l, wst, inq, cancelled, paused, sig, sourceUp, stopping, step, crashed, work
-M == INSTANCE Stop WITH W <- NW, Cap <- NW, NSeeds <- 0, WorkerCtx <- TRUE, ClientNil <- FALSE, NilGuard <- TRUE, SeenOff <- FALSE, SeenGuard <- TRUE
+M == INSTANCE Stop WITH W <- NW, Cap <- NW, NSeeds <- 0, WorkerCtx <- TRUE, ClientNil <- FALSE, NilGuard <- TRUE, SeenOff <- FALSE, SeenGuard <- TRUE, FeedGuard <- TRUE
 tvars == <<l, wst, inq, cancelled, paused, sig, sourceUp, stopping, step, crashed, work>>
 
 \* worker ids are logged as "0", "1", ...: the model's workers are 1..W
